@@ -33,14 +33,20 @@ class LinguaMakoExtractor(Extractor, MessageExtractor):
             yield from self.process_file(file_)
 
     def process_python(self, code, code_lineno, translator_strings):
-        source = code.getvalue().strip()
+        source = code.getvalue()
+        # the lines stripped off in front are kept, so that the line the
+        # python extractor reports is the line within the code it was given
+        leading_lines = source[: len(source) - len(source.lstrip())].count(
+            "\n"
+        )
+        source = source.strip()
         if source.endswith(":"):
             if source in ("try:", "else:") or source.startswith("except"):
                 source = ""  # Ignore try/except and else
             elif source.startswith("elif"):
                 source = source[2:]  # Replace "elif" with "if"
             source += "pass"
-        code = io.StringIO(source)
+        code = io.StringIO("\n" * leading_lines + source)
         for msg in self.python_extractor(
             self.filename, self.options, code, code_lineno - 1
         ):
